@@ -37,6 +37,7 @@ Fresh(run) == [c |-> run,
                routed |-> {}, nofresh |-> 0, gaveup |-> FALSE,   \* the closest-peers lookups of the current instant
                online |-> TRUE, onlineSince |-> 0, restartAt |-> -1,
                disturbed |-> FALSE,     \* an outage or a restart has happened in this run
+               failing |-> FALSE, healSince |-> 0,   \* provider records cannot be delivered / when that ended
                onceLast |-> [k \in 1..run.nkeys |-> -1],   \* when a provide-once was the latest call for the key (-1: it is not)
                viol |-> {}]
 Init == \E i \in ResetLines : l = i + 1 /\ s = Fresh(Trace[i])
@@ -107,6 +108,8 @@ Stop == /\ Is("Stop")
 Swarm == /\ Is("Swarm") /\ LET st == Quiet IN Step([st EXCEPT !.nearest = Ev.nearest])
 Offline == /\ Is("Offline") /\ LET st == Quiet IN Step([st EXCEPT !.online = FALSE, !.disturbed = TRUE])
 Online == /\ Is("Online") /\ LET st == Quiet IN Step([st EXCEPT !.online = TRUE, !.onlineSince = Ev.ts])
+FailSend == /\ Is("FailSend") /\ LET st == Quiet IN Step([st EXCEPT !.failing = TRUE])
+HealSend == /\ Is("HealSend") /\ LET st == Quiet IN Step([st EXCEPT !.failing = FALSE, !.healSince = Ev.ts])
 \* The property promises that work queued at Close is resumed after a restart; it does not promise reprovide
 \* deadlines across a restart, so the deadline clock of every key starts again at the restart.
 Restart == /\ Is("Restart") /\ LET st == Quiet IN Step([st EXCEPT !.onlineSince = IF st.online THEN Ev.ts ELSE @, !.once = {}, !.restartAt = Ev.ts, !.disturbed = TRUE])
@@ -117,8 +120,9 @@ Restart == /\ Is("Restart") /\ LET st == Quiet IN Step([st EXCEPT !.onlineSince 
 Settle ==
   /\ Is("Settle")
   /\ LET st == Quiet
-         steady == ~st.c.buffered /\ ~st.disturbed /\ st.online
-         due(k) == st.since[k] + Grace <= Ev.ts
+         steady == ~st.c.buffered /\ ~st.disturbed /\ st.online /\ ~st.failing
+         \* (records that could not be delivered are sent again once delivery works; the node retries every 5 minutes)
+         due(k) == Max(st.since[k], st.healSince) + Grace <= Ev.ts
          bound == st.c.interval + st.c.maxdelay + 60
          gap(k) == Ev.ts - st.last[k]
      IN Step([st EXCEPT !.viol = @
@@ -126,8 +130,8 @@ Settle ==
           \cup Flag(steady => \A k \in st.kept \cup st.once : due(k) => st.last[k] >= st.since[k], "b_key_not_advertised")
           \* and is re-advertised within interval + allowed delay; when regions are merged into a wider prefix the
           \* library reschedules them a cycle later (known finding), but never later than that
-          \cup Flag(steady => \A k \in st.kept : (due(k) /\ st.last[k] # -1) => gap(k) <= bound, "b_key_not_readvertised_in_time")
-          \cup Flag(steady => \A k \in st.kept : (due(k) /\ st.last[k] # -1) => gap(k) <= bound + st.c.interval,
+          \cup Flag(steady => \A k \in st.kept : (due(k) /\ st.last[k] # -1) => (gap(k) <= bound \/ Ev.ts - st.healSince < bound), "b_key_not_readvertised_in_time")
+          \cup Flag(steady => \A k \in st.kept : (due(k) /\ st.last[k] # -1) => (gap(k) <= bound + st.c.interval \/ Ev.ts - st.healSince < bound + st.c.interval),
                     "b_key_not_readvertised_within_two_intervals")
           \* behind the buffered wrapper: a provide-once that is the latest call for its key is carried out
           \cup Flag((st.c.buffered /\ ~st.disturbed /\ st.online) =>
@@ -138,7 +142,7 @@ OpResult == Is("OpResult") /\ LET st == At(Ev.ts) IN Step(st)
 EndEv == Is("End") /\ Step(CloseBatch(s))
 Stuck == Is("Stuck") /\ Step([s EXCEPT !.viol = @ \cup {<<"C17", "x_wedged_or_crashed">>}])
 
-Next == Send \/ Route \/ SendFail \/ Start \/ Once \/ Stop \/ Swarm \/ Offline \/ Online \/ Restart \/ Settle \/ OpResult \/ EndEv \/ Stuck
+Next == Send \/ Route \/ FailSend \/ HealSend \/ SendFail \/ Start \/ Once \/ Stop \/ Swarm \/ Offline \/ Online \/ Restart \/ Settle \/ OpResult \/ EndEv \/ Stuck
 TraceSpec == Init /\ [][Next]_vars
 TraceAccepted == TLCGet("distinct") = NLines
 InvC17 == s.viol = {}
